@@ -27,6 +27,10 @@ REGISTRY = {
     "C15": ("vverif.checks_objsm", "check_c15"),
     "C16": ("vverif.checks_session", "check_c16"),
     "C20": ("vverif.checks_session", "check_c20"),
+    "C03": ("vverif.checks_arrays", "check_c03"),
+    "C17": ("vverif.checks_arrays", "check_c17"),
+    "C18": ("vverif.checks_arrays", "check_c18"),
+    "C19": ("vverif.checks_arrays", "check_c19"),
     "C09": ("vverif.checks_laws", "check_c09"),
     "C10": ("vverif.checks_laws", "check_c10"),
     "C11": ("vverif.checks_laws", "check_c11"),
